@@ -3,6 +3,8 @@ import Witverif.Proofs.AbiLift3
 import Witverif.Proofs.AbiStore4
 import Witverif.Proofs.AbiLoad
 import Witverif.Proofs.AbiStoreA4
+import Witverif.Proofs.AbiLiftAll
+import Witverif.Proofs.SpecRoundtrip
 /-!
 # C01 — Shared ABI generator encodes and decodes every WIT value per the spec
 
@@ -89,6 +91,53 @@ theorem store_correct (p : Nat) (hp : p = 4 ∨ p = 8) (c : Cfg) (t : Ty) (v : V
     Writes p lvl x a v ss (fun addr st => Spec.store p t v (addr + off.at p) st) :=
   store_sound p hp c v t hm hv lvl x a off ss h
 
+/-- **Flat lifting is the spec's `lift_flat`, for every type** (strings, lists — canonical fast path
+and element-wise —, maps, records, variants with every slot join, fixed-length lists, handles, scalars;
+any nesting), both pointer widths, any backend configuration, any memory: if the operands denote core
+values `cs` that are well-formed for `flatten t` (any bit patterns of the right core types) — stably,
+i.e. in every extension of the environment — the expression `lift` builds evaluates to exactly
+`Spec.liftFlat p m t cs`, and is stuck exactly when the spec traps (invalid discriminant or char;
+misaligned list pointer — see the note on alignment in `load_correct`).  This is what lifts the
+parameters of every export and the results of every import. -/
+theorem lift_flat_correct_all (p : Nat) (hp : p = 4 ∨ p = 8) (c : Cfg) (t : Ty)
+    (lvl : Nat) (xs : List Expr) (env : Env) (m : Spec.Mem) (cs : List CVal) (e : Expr)
+    (hp' : env.p = p) (hl : env.frames.length = lvl + 1) (hwf : WfFlat cs (Spec.flatten p t))
+    (hst : FlatStable env m xs cs) (h : lift c lvl t xs = .ok e) :
+    ∀ ls, eval (env.withLets ls) m e = (Spec.liftFlat p m t cs).map MV.v :=
+  lift_soundA p hp c t lvl xs env m cs e hp' hl hwf hst h
+
+/-- The spec's own flat round trip on memory-free types (proved in Proofs/SpecRoundtrip.lean). -/
+theorem spec_flat_roundtrip (p : Nat) (m : Spec.Mem) (v : Val) (t : Ty) (st : Spec.St)
+    (hm : memFree t = true) (hv : Spec.hasTy t v = true) :
+    Spec.liftFlat p m t (Spec.lowerFlat p t v st).1 = some v :=
+  liftFlat_lowerFlat p m v t st hm hv
+
+/-- **Lifting what was lowered returns the original value** (memory-free types, flat): whatever
+operands denote the core values the canonical lowering of `v` produces, the generator's lifting
+expression evaluates to `v` — composition of `lift_flat_correct_all`, the well-formedness of the
+spec's lowering and the spec's round trip.  (With `lower_flat_correct`: the operands the generator's
+own lowering emits denote exactly those core values.)  For types that use linear memory the
+generator-level statements are `store_correct_all` / `load_correct` / `lift_flat_correct_all`; the
+spec-level round trip through memory (`Spec.load (Spec.store v) = v`) is not proved — it is checked
+per sampled case by the monitors (`checkLiftMem`). -/
+theorem lift_of_lowered_is_identity (p : Nat) (hp : p = 4 ∨ p = 8) (c : Cfg) (t : Ty) (v : Val)
+    (hm : memFree t = true) (hv : Spec.hasTy t v = true) (st : Spec.St)
+    (lvl : Nat) (xs : List Expr) (env : Env) (m : Spec.Mem) (e : Expr)
+    (hp' : env.p = p) (hl : env.frames.length = lvl + 1)
+    (hst : FlatStable env m xs (Spec.lowerFlat p t v st).1) (h : lift c lvl t xs = .ok e) :
+    ∀ ls, eval (env.withLets ls) m e = some (.v v) := by
+  intro ls
+  have hwf := (lowerFlat_wf p v t st hm hv).2
+  rw [lift_soundA p hp c t lvl xs env m _ e hp' hl hwf hst h ls, liftFlat_lowerFlat p m v t st hm hv]
+  rfl
+
+/-- Non-vacuity of `lift_flat_correct_all`: lifting `tuple<string, list<u8>>` from four flat operands. -/
+example :
+    ∃ e, lift ⟨fun _ => false, true⟩ 0 (.tuple [.string, .list .u8]) [.arg 0, .arg 1, .arg 2, .arg 3] = .ok e ∧
+      eval { p := 4, args := [.c ⟨.i32, 16⟩, .c ⟨.i32, 2⟩, .c ⟨.i32, 32⟩, .c ⟨.i32, 1⟩] } [(16, 104), (17, 105), (32, 7)] e
+        = some (.v (.record [.str [104, 105], .list [.int 7]])) :=
+  ⟨_, rfl, rfl⟩
+
 /-- **Lowering to memory is the spec's `store`, for every type** (strings, lists — canonical fast path
 and element-wise —, maps, and any nesting of them inside records, variants, fixed-length lists, …),
 every value of the type, both pointer widths, any backend configuration (`realloc: Some/None`,
@@ -119,7 +168,16 @@ operand `a` denoting `addr` and any static offset: the expression `read_from_mem
 to exactly `Spec.load` at `addr + offset`, and is stuck (`none` = trap) exactly when the spec traps
 (invalid discriminant, invalid char, misaligned list pointer).  In particular field offsets,
 discriminant width, payload offset, flag words, list element stride and fixed-length list element
-offsets are the canonical ones. -/
+offsets are the canonical ones.
+Conventions of the reference machine (Abi/Sem.lean) that make this an equality: (1) the list-lifting
+instructions (`ListLift`, `ListCanonLift`, `MapLift`) are given the canonical ABI's alignment trap —
+no backend emits that check and abi.rs does not document it; hosts guarantee it when they lower; read
+the clause as "modulo pointer alignment"; (2) the bulk instructions of the canonical-list fast path
+(`ListCanonLift`/`ListCanonLower`, `StringLift`/`StringLower`) are *defined* as the spec's element-wise
+load/store of the buffer (memcpy semantics), so for those branches the statement holds by definition
+of the reference meaning — what is proved there is that the generator passes them the right pointer,
+length and element type; that a backend's memcpy of a canonical element type really is the
+element-wise encoding is C05's `rust_canon_layout` / C10's `c_layout_eq_canonical`. -/
 theorem load_correct (p : Nat) (hp : p = 4 ∨ p = 8) (c : Cfg) (t : Ty)
     (lvl : Nat) (a : Expr) (off : Off) (env : Env) (m : Spec.Mem) (addr : Nat) (e : Expr)
     (hp' : env.p = p) (hl : env.frames.length = lvl + 1) (ha : AddrStable env m a addr)
